@@ -148,6 +148,13 @@ def fold(
         'None': ('', ''),
     }
     lb, rb = brackets.get(typename(value), ('', ''))
+    if not lb and prefix.endswith('='):
+        # note: the value of a keyword argument needs its brackets also
+        #   when it is a subclass (a closed list of decorators is a list)
+        for cls, name in ((dict, 'dict'), (list, 'list'), (tuple, 'tuple')):
+            if isinstance(value, cls):
+                lb, rb = brackets[name]
+                break
     lbrack = notnone(lbrack, lb)
     rbrack = notnone(rbrack, rb)
     assert lbrack is not None and rbrack is not None
@@ -165,7 +172,7 @@ def fold(
 
     if isinstance(value, dict):
         if reprs:
-            repr_list = [f'{k!r}: {v!r}' for k, v in value.items()]
+            repr_list = [f'{k!r}: {srcrepr(v)}' for k, v in value.items()]
         else:
             repr_list = [f'{k}: {v}' for k, v in value.items()]
     elif reprs:
